@@ -209,15 +209,40 @@ def nontrivial(scenario):
     return any(b in FAILING for b in bs[:-1])
 
 
-def run_one(ctx, scenario):
+def timing_suspect(scenario, obs):
+    """A behaviour that involves no process fault was reported as timed out / died: on an overloaded machine a healthy
+    worker may need longer than the scenario's (deliberately short) timeout to fork and answer."""
+    for c in obs['comparisons']:
+        b = scenario['script'].get(c['recording_id'])
+        if b not in PF.PROCESS_FAULTS and b != 'bad_answer' and c['status'] == 'EqualizerFailure' and \
+                ('timeout' in (c['message'] or '') or 'died' in (c['message'] or '')):
+            return True
+    return False
+
+
+def checked(ctx, scenario):
+    """run + check; a verdict that may be an artefact of machine load is confirmed with a ten times longer timeout
+    before it is called a violation (a time limit hit is inconclusive, never a violation by itself)."""
     obs = PF.run_scenario(scenario)
-    check(scenario, obs)
+    try:
+        check(scenario, obs)
+    except Violation:
+        if not (scenario['dedicated'] and timing_suspect(scenario, obs)):
+            raise
+        slow = dict(scenario, timeout=max(5.0, 10 * scenario['timeout']), hard_cap_s=180)
+        obs = PF.run_scenario(slow)
+        check(slow, obs)
+        ctx.count('timing-retry: passed with a longer timeout')
+    return obs
+
+
+def run_one(ctx, scenario):
+    obs = checked(ctx, scenario)
     bs = [scenario['script'][i] for i in scenario['ids']]
     if not any(b in PF.PROCESS_FAULTS or b == 'bad_answer' for b in bs):
         # differential: the other execution mode must give the same verdict list
         other = dict(scenario, dedicated=not scenario['dedicated'])
-        obs2 = PF.run_scenario(other)
-        check(other, obs2)
+        obs2 = checked(ctx, other)
         a = [(c['status'], c['message']) for c in obs['comparisons']]
         b = [(c['status'], c['message']) for c in obs2['comparisons']]
         if a != b:
